@@ -482,6 +482,22 @@ def supply_matching(F, rep, rule="C07.supply-match"):
 
 
 RESERVED = []
+NAMED = []
+
+
+def expression_values_wait_in_registers(F, rep, rule="C15.parked"):
+    """(collected while fresh_cell_for_new_names_only walks the store_fast emissions)  Inside an expression a value that waits for its siblings - an
+    argument of a call, the receiver of a method, the left operand - waits in a temporary register the counter handed out; a slot that is merely
+    *named* (a string made from a register's number) is nobody's: two nested calls that draw the same base write the same `#k.0`."""
+    EXPR_GENERATORS = ("callable::Callable", "math_expr::compile_depth", "dot_lookup::DotLookupOption", "math_expr::Expr as compiler::ast::Compile",
+                       "list::List", "value::Value as compiler::ast::Compile", "map::", "function_arguments::")
+    bad = sorted({(mir.short(f.path), str(span), ty.split("::")[-1]) for f, span, ty in NAMED if any(x in f.path for x in EXPR_GENERATORS)})
+    n = len({(f.path, str(span)) for f, span, made in RESERVED if any(x in f.path for x in EXPR_GENERATORS)})
+    rep.ob(rule, "expression generators park waiting values in counter-backed temporary registers only", "violated" if bad else "ok",
+           ("store_fast with an operand that is not a TemporaryRegister: %s - `self(a, self(b, c))`: the inner call's first slot is the outer call's" % bad[:3]) if bad
+           else "%d register writes in expression generators" % n, None, fn="compiler::ast", key=rule + "|register-kind")
+    rep.floor(rule + " register writes in expression generators", n, 5)
+    del NAMED[:]
 
 
 def written_registers_are_reserved(F, rep, rule="C07.fresh-cell"):
@@ -544,6 +560,7 @@ def fresh_cell_for_new_names_only(F, rep):
                 continue
             if "TemporaryRegister" in ty or "CompiledFunctionId" in ty:
                 continue
+            NAMED.append((f, span, ty))
             label = "%s emits store_fast <%s>" % (mir.short(f.path), ty.split("::")[-1])
             key = "C07.fresh-cell|%s|%s" % (mir.short(f.path), ty.split("::")[-1])
             n += 1
